@@ -11,6 +11,7 @@ R25.4 priority of the user-type resolver: later HashMap inserts override earlier
       non-terminal type is rendered explicitly (or an alias is lost) and the text read back differs.
 R25.5 / R25.6 see delimiter_rules: rendering order literal < look-ahead < AST control in Terminal::format; every literal is
       quoted with the delimiter of its own kind.
+R25.7 scanner transitions are grouped for rendering by a key that keeps their switch kind.
 R25.3 the skip sentinels "%nt_type"/"%t_type" are only *compared* in the format functions, never produced there:
       a format function that manufactures the sentinel drops a user type that has no global definition.
 """
@@ -272,6 +273,7 @@ def check(ctx):
               "%t_type/%nt_type definition and a %user_type alias the renderer prints the alias explicitly, the text read "
               "back is a different grammar", where(res))
     delimiter_rules(ctx, facts)
+    transitions_grouped_with_their_kind(ctx, facts)
 
 
 # ----------------------------------------------------------------------------------------------------------- R25.5 / R25.6
@@ -403,3 +405,35 @@ def delimiter_rules(ctx, facts):
               "Terminal::format renders the look-ahead (line %s) after Decorate::decorate appended the cut operator: "
               "`\"a\" ?= \"b\"^` is rendered as `\"a\"^ /* Clipped */ ?= \"b\"`, which parol cannot read back (PAR: TokenLiteral "
               "[LookAhead] [ASTControl])" % ([c.line for c in late] + late_reads), where(tf, decs[0].line))
+
+
+def transitions_grouped_with_their_kind(ctx, facts):
+    """R25.7 (added after seed C25-c) the renderer writes one `%on ..` directive per group of scanner transitions; a group may
+    only unite transitions that agree in everything the directive states - switch kind (%enter / %push / %pop) and target.  The
+    key closure of every grouping of `ScannerConfig.transitions` in render_scanner_config_string therefore returns the whole
+    ScannerStateSwitch value (or something that carries its discriminant); a key made of the target name alone unites
+    `%enter Str` with `%push Str` and renders both with the first one's keyword."""
+    from .common import closure_of_arg_any
+    rsc = facts.body(M + "render_scanner_config_string")
+    n = 0
+    for b in facts.family(rsc):
+        for c in b.calls():
+            nm = (c.path or "").split("::")[-1]
+            if nm not in ("group_by", "chunk_by", "into_group_map_by", "sort_by_key", "dedup_by_key"):
+                continue
+            src = operand_term(b, c.args[0], through_calls=True) if c.args else ("unknown",)
+            names = [str(x) for x in (src[2] if src[0] == "path" else ())]
+            if "transitions" not in names:
+                continue
+            cl = closure_of_arg_any(facts, b, c)
+            if cl is None:
+                continue
+            n += 1
+            kty = cl.local_ty(0)
+            ok = "ScannerStateSwitch" in kty or "Discriminant<" in kty
+            ctx.check(ok, "R25.7", "render_scanner_config_string|%s-key-keeps-switch-kind" % nm,
+                      "transitions are grouped by a key of type %s" % kty[:80],
+                      "render_scanner_config_string groups the scanner transitions by a key of type `%s`, which no longer tells "
+                      "%%enter, %%push and %%pop apart: transitions of different kinds to one target are rendered as one directive with "
+                      "the first one's keyword, the text reads back as another scanner configuration" % kty[:80], where(b, c.line))
+    ctx.require_floor("R25.7", "transition_groupings", n, 1)
